@@ -2,7 +2,8 @@ package main
 
 // C15 — JSON is a lossless interchange form.  Ops:
 //
-//	c15rt   <canon x> <json printed by the Lean model>   marshal / polyjson.Parse / Write+Read / GetSequence / Build
+//	c15rt   <canon x> <json printed by the Lean model>   marshal / polyjson.Parse / Write+Read (histories of writes and
+//	                                                     reads on one path) / GetSequence / Build
 //	c15dec  <json text>                                  polyjson.Parse only (decoder rules)
 //	c15conv gbk|gff <file text>                          parser → Build  vs  parser → JSON → polyjson.Parse → Build
 //	                                                     (also through polyjson.Write/Read and MarshalIndent/Unmarshal)
@@ -476,6 +477,53 @@ func init() {
 		if err != nil {
 			return nil, err
 		}
+		// history of READS on one path: a longer document is written and read; then the file is replaced by x's
+		// document WITHOUT polyjson.Write (stored by the caller with os.WriteFile, as `poly c -o json` output is; and
+		// once more moved into place with os.Rename); the value returned by a Read is edited in place (its maps and
+		// slices) — every later Read must still report what the file holds, i.e. x
+		hpath := c15TempFile()
+		defer os.Remove(hpath)
+		polyjson.Write(c15Longer(x), hpath)
+		_ = polyjson.Read(hpath)
+		if err := os.WriteFile(hpath, ftext, 0o644); err != nil {
+			return nil, err
+		}
+		rd2 := polyjson.Read(hpath)
+		crd2, err := c15Canon(rd2)
+		if err != nil {
+			return nil, err
+		}
+		rd2.Description = "edited"
+		rd2.Meta.Name = "edited"
+		if rd2.Meta.Other != nil {
+			rd2.Meta.Other["edited"] = "edited"
+		}
+		for i := range rd2.Features {
+			rd2.Features[i].Type = "edited"
+			if rd2.Features[i].Attributes != nil {
+				rd2.Features[i].Attributes["edited"] = "edited"
+			}
+		}
+		for i := range rd2.Meta.References {
+			rd2.Meta.References[i].Title = "edited"
+		}
+		crd3, err := c15Canon(polyjson.Read(hpath))
+		if err != nil {
+			return nil, err
+		}
+		polyjson.Write(c15Longer(x), hpath)
+		_ = polyjson.Read(hpath)
+		tmp := hpath + ".new"
+		if err := os.WriteFile(tmp, ftext, 0o644); err != nil {
+			return nil, err
+		}
+		if err := os.Rename(tmp, hpath); err != nil {
+			return nil, err
+		}
+		crd4, err := c15Canon(polyjson.Read(hpath))
+		if err != nil {
+			return nil, err
+		}
 		fromLean := polyjson.Parse([]byte(a[1]))
 		cfl, err := c15Canon(fromLean)
 		if err != nil {
@@ -495,7 +543,8 @@ func init() {
 		gfrt := c15Guard(func() []byte { return gff.Build(rt) })
 		gsx := c15GetSeqs(x)
 		return []string{string(jtext), crt, gsx, same(c15GetSeqs(rt), gsx), string(ftext), same(crd, crt), same(cfl, crt),
-			gbx, same(gbrt, gbx), gfx, same(gfrt, gfx)}, nil
+			gbx, same(gbrt, gbx), gfx, same(gfrt, gfx),
+			same(crd2, crt), same(crd3, crt), same(crd4, crt)}, nil
 	})
 	runner.Register("c15dec", func(a []string) ([]string, error) {
 		c, err := c15Canon(polyjson.Parse([]byte(a[0])))
